@@ -13,6 +13,8 @@ pub mod c10;
 pub mod c11;
 pub mod c13;
 pub mod c14;
+pub mod c15;
+pub mod c16;
 pub mod c17;
 pub mod c18;
 pub mod c20;
@@ -53,6 +55,8 @@ registry! {
     "C11" => c11::C11,
     "C13" => c13::C13,
     "C14" => c14::C14,
+    "C15" => c15::C15,
+    "C16" => c16::C16,
     "C17" => c17::C17,
     "C18" => c18::C18,
     "C20" => c20::C20,
